@@ -122,10 +122,22 @@ def cli_case(ctx, k):
                 s = left + ad if r < 0.7 else left + right
             else:
                 s = left + ad + right if r < 0.5 else left + ad + G.rnd(rng, 3) + ad + right if r < 0.7 else left + right
+            if mode in ("prefix", "suffix") and rng.random() < 0.15:
+                s = ad     # nothing but the adapter
             recs.append((f"r{i}", s, "I" * len(s)))
         inputs = climon.write_inputs(d, recs)
         spec = dict(back=ad, prefix="^" + ad, suffix=ad + "$")[mode]
-        argv = ["-g" if mode == "prefix" else "-a", spec, "-e", rng.choice(["0", "0.1", "0.2"]), "-o", "out.fq"] + (["--no-indels"] if rng.random() < 0.3 else [])
+        flag = "-g" if mode == "prefix" else "-a"
+        argv = [flag, spec]
+        if mode in ("prefix", "suffix") and rng.random() < 0.6:
+            # further anchored adapters of the same kind (an index is built then); all shorter than the adapter under
+            # test, so that none of them can match better than its error-free full copy
+            for j in range(rng.randint(1, 2)):
+                dec = G.rnd(rng, rng.randint(3, len(ad) - 1))
+                pair = [flag, ("^" + dec) if mode == "prefix" else (dec + "$")]
+                argv = (argv + pair) if rng.random() < 0.5 else (pair + argv)
+            ctx.count("cli_runs_with_several_anchored_adapters")
+        argv += ["-e", rng.choice(["0", "0.1", "0.2"]), "-o", "out.fq"] + (["--no-indels"] if rng.random() < 0.3 else [])
         run = climon.run(d, argv + inputs, trace=False)
         ctx.count("cli_runs")
         if run.rc != 0:
